@@ -178,7 +178,9 @@ def initCirc (kvs : List (String × String)) : Circ OState CState :=
     | some "hystrix" => .hystrix { tc := { sleep := kvInt kvs "c_sleep" 5000000000, allow := kvInt kvs "c_half" 1 }, required := kvInt kvs "c_req" 1 }
     | some "scripted" => .scripted {}
     | _ => .never
-  { cfg := parseCfg kvs {}, opener := opener, closer := closer }
+  -- a nil circuit and a zero-value circuit take the same pass-through branch of Execute as a Disabled one
+  let cfg := parseCfg kvs {}
+  { cfg := if (kvGet kvs "pt").isSome then { cfg with disabled := true } else cfg, opener := opener, closer := closer }
 
 def closerKind (kvs : List (String × String)) : CloserKind :=
   match kvGet kvs "closer" with | some "hystrix" => .hystrix | some "scripted" => .scripted | _ => .never
